@@ -288,3 +288,31 @@ impl Run {
         let _ = std::io::stdout().flush();
     }
 }
+
+/// "A clone" can be obtained with `clone()` or with `clone_from()` onto an existing value with a
+/// different history; both must give the same thing. This helper alternates between the two
+/// and keeps a stale copy (taken at an earlier point of the history) as the `clone_from` target.
+pub struct CloneVia<T> {
+    stale: Option<T>,
+}
+
+impl<T: Clone> CloneVia<T> {
+    pub fn new() -> Self {
+        CloneVia { stale: None }
+    }
+
+    pub fn clone_of(&mut self, run: &mut Run, rng: &mut crate::prng::Rng, src: &T) -> T {
+        let out = match self.stale.take() {
+            Some(mut d) if rng.bool() => {
+                d.clone_from(src);
+                run.count("clones_via_clone_from_onto_stale_value", 1);
+                d
+            }
+            _ => src.clone(),
+        };
+        if rng.bool() {
+            self.stale = Some(src.clone());
+        }
+        out
+    }
+}
